@@ -67,3 +67,191 @@ package distributed
 //@ immutable subscriptionsState.subscriptions, peer, bcast, recorder
 //@ immutable topicsState.tree, bcast
 //@ immutable sessionMetadatasState.peer, bcast, recorder
+
+// ---- C08: last-writer-wins merge of session metadata ----------------------------------------------------------------
+// smts(v): the update time of a stored session record
+//@ fun smts(v api.SessionMetadatas) int64 := lwwts(v.LastAdded, v.LastDeleted)
+
+// mergeSessions applies a batch of remote records. For every session id: the stored record never goes back in time (M1); every
+// record of the batch is reflected or dominated by what is stored afterwards (M2); what is stored afterwards is what was stored
+// before or one of the records of the batch with that id (M3). M1-M3 say the stored record is a maximum (by update time) of the
+// old record and the batch records of that id: the last-writer-wins join, whatever the order inside the batch.
+// every record is filed under its own session id
+//@ pred sm_wf(s *sessionMetadatasState) := s != nil && s.sessions != nil && (forall k string :: {s.sessions[k]} {k in s.sessions} k in s.sessions ==> s.sessions[k].SessionID == k)
+//@ func (*sessionMetadatasState).mergeSessions(sessions []*api.SessionMetadatas) (err error)
+//@   requires sm_wf(s) && unlocked(s.mu)
+//@   ensures sm_wf(s)
+//@   requires forall i int :: {sessions[i]} 0 <= i && i < len(sessions) ==> sessions[i] != nil
+//@   ensures forall k string :: {s.sessions[k]} {k in s.sessions} old(k in s.sessions) ==> k in s.sessions && smts(s.sessions[k]) >= old(smts(s.sessions[k]))
+//@   ensures err == nil ==> (forall i int :: {sessions[i]} 0 <= i && i < len(sessions) ==> sessions[i].SessionID in s.sessions && smts(s.sessions[sessions[i].SessionID]) >= smts(*sessions[i]))
+//@   ensures forall k string :: {s.sessions[k]} {k in s.sessions} k in s.sessions ==> (old(k in s.sessions) && s.sessions[k] == old(s.sessions[k])) || (exists i int :: {sessions[i]} 0 <= i && i < len(sessions) && sessions[i].SessionID == k && s.sessions[k] == *sessions[i])
+//@   ensures err != nil ==> err == ErrInvalidPayload
+//@   modifies mapof(s.sessions), heap(K_sync_RWMutex)
+//@ loop (*sessionMetadatasState).mergeSessions#1
+//@   invariant sm_wf(s) && -1 <= rangeindex && rangeindex < len(sessions)
+//@   invariant mapsframe(s.sessions)
+//@   invariant forall k string :: {s.sessions[k]} {k in s.sessions} old(k in s.sessions) ==> k in s.sessions && smts(s.sessions[k]) >= old(smts(s.sessions[k]))
+//@   invariant forall j int :: {sessions[j]} 0 <= j && j <= rangeindex ==> sessions[j].SessionID in s.sessions && smts(s.sessions[sessions[j].SessionID]) >= smts(*sessions[j])
+//@   invariant forall k string :: {s.sessions[k]} {k in s.sessions} k in s.sessions ==> (old(k in s.sessions) && s.sessions[k] == old(s.sessions[k])) || (exists j int :: {sessions[j]} 0 <= j && j <= rangeindex && sessions[j].SessionID == k && s.sessions[k] == *sessions[j])
+
+// ---- C09 / C10: what a broadcast carries --------------------------------------------------------------------------------------
+// A-CLOCK: the clock returns positive times (UnixNano after 1970)
+//@ assume-call var.clock() (t int64)
+//@   ensures t > 0
+//@   modifies nothing
+
+// The content of an encoded StateBroadcastEvent as a decoder sees it (A-PROTOBUF: Marshal writes, Unmarshal reads exactly this;
+// pointers and slices are compared by what they point to: sm_eq / sub_eq / rm_eq).
+//@ fun ev_nsess(enc string) int
+//@ fun ev_sess(enc string, i int) api.SessionMetadatas
+//@ fun ev_nsubs(enc string) int
+//@ fun ev_sub(enc string, i int) api.Subscription
+//@ fun ev_nret(enc string) int
+//@ fun ev_ret(enc string, i int) api.RetainedMessage
+//@ pred sm_eq(a api.SessionMetadatas, b api.SessionMetadatas) := a.SessionID == b.SessionID && a.ClientID == b.ClientID && a.ConnectedAt == b.ConnectedAt && a.Peer == b.Peer && a.MountPoint == b.MountPoint && a.LastAdded == b.LastAdded && a.LastDeleted == b.LastDeleted
+
+//@ trusted func github.com/golang/protobuf/proto.Marshal(pb proto.Message) (out []byte, err error)
+//@   ensures err == nil && typeis(pb, *api.StateBroadcastEvent) ==> fresh(out)
+//@         && ev_nsess(string(out)) == len(unbox(pb, *api.StateBroadcastEvent).SessionMetadatas)
+//@         && (forall i int :: {ev_sess(string(out), i)} {unbox(pb, *api.StateBroadcastEvent).SessionMetadatas[i]} 0 <= i && i < len(unbox(pb, *api.StateBroadcastEvent).SessionMetadatas) ==> sm_eq(ev_sess(string(out), i), *unbox(pb, *api.StateBroadcastEvent).SessionMetadatas[i]))
+//@         && ev_nsubs(string(out)) == len(unbox(pb, *api.StateBroadcastEvent).Subscriptions)
+//@         && ev_nret(string(out)) == len(unbox(pb, *api.StateBroadcastEvent).RetainedMessages)
+//@   modifies newrows(bytes)
+
+//@ trusted func (*github.com/hashicorp/memberlist.TransmitLimitedQueue).QueueBroadcast(q *memberlist.TransmitLimitedQueue, b memberlist.Broadcast)
+//@   ensures #bcasts == old(#bcasts) + 1
+//@   ensures typeis(b, simpleBroadcast) ==> #lastBcast == string(unbox(b, simpleBroadcast))
+//@   modifies #bcasts, #lastBcast
+
+// audit events and metrics do not touch the replicated state
+//@ func (audit.Recorder).RecordEvent(r audit.Recorder, tenant string, eventKind audit.event, payload map[string]string) (err error)
+//@   modifies nothing
+
+// C09: a session created locally is stored as an added record and carried by exactly one broadcast holding that record; when
+// the session exists or the broadcast cannot be built nothing changes and nothing is sent.
+//@ func (*sessionMetadatasState).Create(id string, clientID string, connectedAt int64, lwt *packet.Publish, mountpoint string) (err error)
+//@   requires sm_wf(s) && unlocked(s.mu) && s.bcast != nil && s.recorder != nil
+//@   ensures sm_wf(s)
+//@   ensures err == nil ==> id in s.sessions && s.sessions[id].SessionID == id && s.sessions[id].ClientID == clientID && s.sessions[id].MountPoint == mountpoint
+//@            && s.sessions[id].Peer == s.peer && s.sessions[id].LWT == lwt && s.sessions[id].ConnectedAt == connectedAt
+//@            && s.sessions[id].LastAdded > 0 && s.sessions[id].LastDeleted == 0
+//@   ensures err == nil ==> #bcasts == old(#bcasts) + 1 && ev_nsess(#lastBcast) == 1 && sm_eq(ev_sess(#lastBcast, 0), s.sessions[id]) && ev_nsubs(#lastBcast) == 0 && ev_nret(#lastBcast) == 0
+//@   ensures err != nil ==> #bcasts == old(#bcasts) && (forall k string :: {s.sessions[k]} {k in s.sessions} (k in s.sessions <==> old(k in s.sessions)) && s.sessions[k] == old(s.sessions[k]))
+//@   ensures forall k string :: {s.sessions[k]} {k in s.sessions} k != id ==> (k in s.sessions <==> old(k in s.sessions)) && s.sessions[k] == old(s.sessions[k])
+//@   modifies mapof(s.sessions), newrows(bytes), #bcasts, #lastBcast, heap(K_sync_RWMutex)
+
+//@ func (*sessionMetadatasState).set(session api.SessionMetadatas) (err error)
+//@   requires sm_wf(s) && wlocked(s.mu)
+//@   ensures sm_wf(s)
+//@   ensures err == nil && session.SessionID in s.sessions && s.sessions[session.SessionID] == session
+//@   ensures forall k string :: {s.sessions[k]} {k in s.sessions} k != session.SessionID ==> (k in s.sessions <==> old(k in s.sessions)) && s.sessions[k] == old(s.sessions[k])
+//@   modifies mapof(s.sessions)
+
+// C09: deleting a session stamps its record with a deletion time and broadcasts exactly that record; an unknown or already
+// removed session changes nothing and sends nothing.
+//@ func (*sessionMetadatasState).Delete(id string) (err error)
+//@   requires sm_wf(s) && unlocked(s.mu) && s.bcast != nil && s.recorder != nil
+//@   ensures sm_wf(s)
+//@   ensures err == nil && #bcasts == old(#bcasts) + 1 ==> id in s.sessions && s.sessions[id].LastDeleted > 0 && s.sessions[id].LastAdded == old(s.sessions[id].LastAdded)
+//@            && ev_nsess(#lastBcast) == 1 && sm_eq(ev_sess(#lastBcast, 0), s.sessions[id]) && ev_nsubs(#lastBcast) == 0 && ev_nret(#lastBcast) == 0
+//@   ensures #bcasts == old(#bcasts) || #bcasts == old(#bcasts) + 1
+//@   ensures #bcasts == old(#bcasts) ==> (forall k string :: {s.sessions[k]} {k in s.sessions} (k in s.sessions <==> old(k in s.sessions)) && s.sessions[k] == old(s.sessions[k]))
+//@   ensures err == nil && old(id in s.sessions) && old(!(s.sessions[id].LastDeleted > 0 && s.sessions[id].LastAdded < s.sessions[id].LastDeleted)) ==> #bcasts == old(#bcasts) + 1
+//@   ensures forall k string :: {s.sessions[k]} {k in s.sessions} k != id ==> (k in s.sessions <==> old(k in s.sessions)) && s.sessions[k] == old(s.sessions[k])
+//@   modifies mapof(s.sessions), newrows(bytes), #bcasts, #lastBcast, heap(K_sync_RWMutex)
+
+// reads: only records that are currently added are visible
+//@ func (*sessionMetadatasState).Get(id string) (v api.SessionMetadatas, err error)
+//@   requires s != nil && unlocked(s.mu)
+//@   ensures err == nil <==> (id in s.sessions && s.sessions[id].LastAdded > 0 && s.sessions[id].LastAdded > s.sessions[id].LastDeleted)
+//@   ensures err == nil ==> v == s.sessions[id]
+//@   modifies heap(K_sync_RWMutex)
+
+// the selection predicates handed to filter / find are pure functions of the record
+//@ assume-call (*sessionMetadatasState).filter.f(x api.SessionMetadatas) (r bool)
+//@   pure
+//@ assume-call (*sessionMetadatasState).find.f(x api.SessionMetadatas) (r bool)
+//@   pure
+//@ pred sm_added(v api.SessionMetadatas) := v.LastAdded > 0 && v.LastAdded > v.LastDeleted
+
+// filter returns exactly the added records selected by f (in some order, one slot per record)
+//@ func (*sessionMetadatasState).filter(f func(api.SessionMetadatas) bool) (out []api.SessionMetadatas)
+//@   requires sm_wf(s) && (wlocked(s.mu) || rlocked(s.mu))
+//@   ensures fresh(out) && off(out) == 0
+//@   ensures forall i int :: {out[i]} 0 <= i && i < len(out) ==> out[i].SessionID in s.sessions && out[i] == s.sessions[out[i].SessionID] && sm_added(out[i]) && f(out[i])
+//@   ensures forall k string :: {s.sessions[k]} {k in s.sessions} k in s.sessions && sm_added(s.sessions[k]) && f(s.sessions[k]) ==> (exists i int :: {out[i]} 0 <= i && i < len(out) && out[i] == s.sessions[k])
+//@   modifies newrows(api.SessionMetadatas)
+// both passes count the same set (the added records selected by f): the second fills exactly the slots the first counted
+//@ loop (*sessionMetadatasState).filter#1
+//@   invariant sm_wf(s) && c == scard(seenset(), setof k string :: k in s.sessions && sm_added(s.sessions[k]) && f(s.sessions[k]))
+//@ loop (*sessionMetadatasState).filter#2
+//@   invariant sm_wf(s) && fresh(out) && off(out) == 0 && len(out) == c
+//@   invariant idx == scard(seenset(), setof k string :: k in s.sessions && sm_added(s.sessions[k]) && f(s.sessions[k]))
+//@   invariant forall i int :: {out[i]} 0 <= i && i < idx ==> out[i].SessionID in s.sessions && out[i] == s.sessions[out[i].SessionID] && sm_added(out[i]) && f(out[i])
+//@   invariant forall k string :: {seen(k)} seen(k) && k in s.sessions && sm_added(s.sessions[k]) && f(s.sessions[k]) ==> (exists i int :: {out[i]} 0 <= i && i < idx && out[i] == s.sessions[k])
+
+//@ func (*sessionMetadatasState).find(f func(api.SessionMetadatas) bool) (v api.SessionMetadatas, err error)
+//@   requires sm_wf(s) && (wlocked(s.mu) || rlocked(s.mu))
+//@   ensures err == nil ==> v.SessionID in s.sessions && v == s.sessions[v.SessionID] && sm_added(v) && f(v)
+//@   ensures err != nil ==> (forall k string :: {s.sessions[k]} {k in s.sessions} k in s.sessions ==> !(sm_added(s.sessions[k]) && f(s.sessions[k])))
+//@   modifies nothing
+//@ loop (*sessionMetadatasState).find#1
+//@   invariant sm_wf(s)
+//@   invariant forall k string :: {seen(k)} seen(k) && k in s.sessions ==> !(sm_added(s.sessions[k]) && f(s.sessions[k]))
+
+//@ func (*sessionMetadatasState).ByClientID(clientID string) (v api.SessionMetadatas, err error)
+//@   requires sm_wf(s) && unlocked(s.mu)
+//@   ensures err == nil ==> v.SessionID in s.sessions && v == s.sessions[v.SessionID] && sm_added(v) && v.ClientID == clientID
+//@   ensures err != nil ==> (forall k string :: {s.sessions[k]} {k in s.sessions} k in s.sessions ==> !(sm_added(s.sessions[k]) && s.sessions[k].ClientID == clientID))
+//@   modifies heap(K_sync_RWMutex)
+//@ func (*sessionMetadatasState).ByPeer(peer uint64) (out []api.SessionMetadatas)
+//@   requires sm_wf(s) && unlocked(s.mu)
+//@   ensures forall i int :: {out[i]} 0 <= i && i < len(out) ==> out[i].SessionID in s.sessions && out[i] == s.sessions[out[i].SessionID] && sm_added(out[i]) && out[i].Peer == peer
+//@   ensures forall k string :: {s.sessions[k]} {k in s.sessions} k in s.sessions && sm_added(s.sessions[k]) && s.sessions[k].Peer == peer ==> (exists i int :: {out[i]} 0 <= i && i < len(out) && out[i] == s.sessions[k])
+//@   modifies newrows(api.SessionMetadatas), heap(K_sync_RWMutex)
+//@ func (*sessionMetadatasState).All() (out []api.SessionMetadatas)
+//@   requires sm_wf(s) && unlocked(s.mu)
+//@   ensures fresh(out) && off(out) == 0
+//@   ensures forall i int :: {out[i]} 0 <= i && i < len(out) ==> out[i].SessionID in s.sessions && out[i] == s.sessions[out[i].SessionID] && sm_added(out[i])
+//@   ensures forall k string :: {s.sessions[k]} {k in s.sessions} k in s.sessions && sm_added(s.sessions[k]) ==> (exists i int :: {out[i]} 0 <= i && i < len(out) && out[i] == s.sessions[k])
+//@   modifies newrows(api.SessionMetadatas), heap(K_sync_RWMutex)
+
+// C09: the bulk removal of a peer's sessions stamps every added record of that peer with a deletion time, and ONE broadcast
+// carries every one of those records; no other record changes; when the broadcast cannot be built nothing changes.
+//@ func (*sessionMetadatasState).DeletePeer(peer uint64) (err error)
+//@   requires sm_wf(s) && unlocked(s.mu) && s.bcast != nil
+//@   ensures sm_wf(s)
+//@   ensures err == nil ==> #bcasts == old(#bcasts) + 1 && ev_nsubs(#lastBcast) == 0 && ev_nret(#lastBcast) == 0
+//@   ensures err == nil ==> (forall k string :: {s.sessions[k]} {k in s.sessions} old(k in s.sessions && sm_added(s.sessions[k]) && s.sessions[k].Peer == peer) ==>
+//@             k in s.sessions && s.sessions[k].LastDeleted > 0 && s.sessions[k].LastAdded == old(s.sessions[k].LastAdded)
+//@             && (exists i int :: {ev_sess(#lastBcast, i)} 0 <= i && i < ev_nsess(#lastBcast) && sm_eq(ev_sess(#lastBcast, i), s.sessions[k])))
+//@   ensures forall k string :: {s.sessions[k]} {k in s.sessions} !old(k in s.sessions && sm_added(s.sessions[k]) && s.sessions[k].Peer == peer) ==> (k in s.sessions <==> old(k in s.sessions)) && s.sessions[k] == old(s.sessions[k])
+//@   ensures err != nil ==> #bcasts == old(#bcasts) && (forall k string :: {s.sessions[k]} {k in s.sessions} (k in s.sessions <==> old(k in s.sessions)) && s.sessions[k] == old(s.sessions[k]))
+//@   modifies mapof(s.sessions), newrows(bytes), newrows(api.SessionMetadatas), newrows(*api.SessionMetadatas), #bcasts, #lastBcast, heap(K_sync_RWMutex)
+// pass 1 stamps a private copy of every selected record and collects the copies in the event, in order
+//@ pred sm_stamped(e api.SessionMetadatas, o api.SessionMetadatas) := e.SessionID == o.SessionID && e.ClientID == o.ClientID && e.ConnectedAt == o.ConnectedAt && e.Peer == o.Peer && e.LWT == o.LWT && e.MountPoint == o.MountPoint && e.LastAdded == o.LastAdded && e.LastDeleted > 0
+//@ loop (*sessionMetadatasState).DeletePeer#1
+//@   invariant sm_wf(s) && event != nil && -1 <= rangeindex && rangeindex < len(sessions) && len(event.SessionMetadatas) == rangeindex + 1
+//@   invariant oldrows("[]*api.SessionMetadatas") && oldobjs("api.SessionMetadatas") && oldobjs("api.StateBroadcastEvent") && fresh(event) && fresh(event.SessionMetadatas) && off(event.SessionMetadatas) == 0
+//@   invariant forall j int :: {event.SessionMetadatas[j]} {sessions[j]} 0 <= j && j <= rangeindex ==> event.SessionMetadatas[j] != nil && allocated(event.SessionMetadatas[j]) && fresh(event.SessionMetadatas[j]) && sm_stamped(*event.SessionMetadatas[j], sessions[j])
+// pass 2 stores every copy under its session id
+//@ loop (*sessionMetadatasState).DeletePeer#2
+//@   invariant sm_wf(s) && mapsframe(s.sessions) && -1 <= rangeindex && rangeindex < len(event.SessionMetadatas)
+//@   invariant forall j int :: {event.SessionMetadatas[j]} 0 <= j && j <= rangeindex ==> (exists j2 int :: {event.SessionMetadatas[j2]} 0 <= j2 && j2 <= rangeindex && event.SessionMetadatas[j2].SessionID == event.SessionMetadatas[j].SessionID && event.SessionMetadatas[j].SessionID in s.sessions && s.sessions[event.SessionMetadatas[j].SessionID] == *event.SessionMetadatas[j2])
+//@   invariant forall k string :: {s.sessions[k]} {k in s.sessions} (forall j int :: {event.SessionMetadatas[j]} 0 <= j && j <= rangeindex ==> event.SessionMetadatas[j].SessionID != k) ==> (k in s.sessions <==> old(k in s.sessions)) && s.sessions[k] == old(s.sessions[k])
+
+// C10: the snapshot of the session table lists every stored record (removed ones included), each through a private copy,
+// after whatever the event held before.
+//@ func (*sessionMetadatasState).dump(event *api.StateBroadcastEvent)
+//@   requires sm_wf(s) && unlocked(s.mu) && event != nil && off(event.SessionMetadatas) == 0
+//@   ensures len(event.SessionMetadatas) >= old(len(event.SessionMetadatas)) && off(event.SessionMetadatas) == 0
+//@   ensures forall k string :: {s.sessions[k]} {k in s.sessions} k in s.sessions ==> (exists i int :: {event.SessionMetadatas[i]} old(len(event.SessionMetadatas)) <= i && i < len(event.SessionMetadatas) && event.SessionMetadatas[i] != nil && *event.SessionMetadatas[i] == s.sessions[k])
+//@   ensures forall i int :: {event.SessionMetadatas[i]} old(len(event.SessionMetadatas)) <= i && i < len(event.SessionMetadatas) ==> event.SessionMetadatas[i] != nil && fresh(event.SessionMetadatas[i]) && event.SessionMetadatas[i].SessionID in s.sessions && *event.SessionMetadatas[i] == s.sessions[event.SessionMetadatas[i].SessionID]
+//@   ensures forall i int :: {event.SessionMetadatas[i]} 0 <= i && i < old(len(event.SessionMetadatas)) ==> event.SessionMetadatas[i] == old(event.SessionMetadatas[i])
+//@   modifies event.SessionMetadatas, allelems(event.SessionMetadatas), heap(K_sync_RWMutex)
+//@ loop (*sessionMetadatasState).dump#1
+//@   invariant sm_wf(s) && event != nil && len(event.SessionMetadatas) >= old(len(event.SessionMetadatas)) && off(event.SessionMetadatas) == 0
+//@   invariant oldobjs("api.SessionMetadatas") && oldobjs("api.StateBroadcastEvent", event)
+//@   invariant forall k string :: {seen(k)} seen(k) && k in s.sessions ==> (exists i int :: {event.SessionMetadatas[i]} old(len(event.SessionMetadatas)) <= i && i < len(event.SessionMetadatas) && event.SessionMetadatas[i] != nil && *event.SessionMetadatas[i] == s.sessions[k])
+//@   invariant forall i int :: {event.SessionMetadatas[i]} old(len(event.SessionMetadatas)) <= i && i < len(event.SessionMetadatas) ==> event.SessionMetadatas[i] != nil && fresh(event.SessionMetadatas[i]) && allocated(event.SessionMetadatas[i]) && event.SessionMetadatas[i].SessionID in s.sessions && *event.SessionMetadatas[i] == s.sessions[event.SessionMetadatas[i].SessionID]
+//@   invariant forall i int :: {event.SessionMetadatas[i]} 0 <= i && i < old(len(event.SessionMetadatas)) ==> event.SessionMetadatas[i] == old(event.SessionMetadatas[i])
